@@ -28,6 +28,17 @@ for f in sorted(os.listdir(src)):
     fp = os.path.join(src, f)
     if os.path.isfile(fp) and is_text(fp) and not f.endswith((".o", ".log", ".out")):
         shutil.copy(fp, dst)
+# files of the parent directory which the demonstration refers to as ../name: bring them in and point the script at the copy
+dsh = os.path.join(dst, "demo.sh")
+if os.path.exists(dsh):
+    import re
+    t = open(dsh).read()
+    for nm in set(re.findall(r"\.\./([A-Za-z0-9_.-]+)", t)):
+        pp = os.path.join(os.path.dirname(src.rstrip("/")), nm)
+        if os.path.isfile(pp) and is_text(pp):
+            shutil.copy(pp, dst)
+            t = t.replace("../" + nm, "./" + nm)
+    open(dsh, "w").write(t)
 # shared demo helpers, if any
 for extra in ("common",):
     p = os.path.join(os.path.dirname(src.rstrip("/")), extra)
